@@ -960,6 +960,22 @@ def python_check(text):
     def is_doc(st):
         return isinstance(st, ast.Expr) and isinstance(st.value, ast.Constant) and isinstance(st.value.value, str)
 
+    # doc strings: the only backslash sequences typeshare writes are a doubled backslash and backslash-quote
+    # (TsV.C10.python_docstring_escapes_repaired, `C10PyDoc.pyEscapesOk`); anything else is an escape sequence the doc text
+    # smuggled into the (non-raw) literal, which CPython rejects (backslash + x / u / U / N) or only warns about (backslash + s)
+    for st in tree.body:
+        for d in ([st] if is_doc(st) else [b for b in st.body if is_doc(b)] if isinstance(st, ast.ClassDef) else []):
+            seg = ast.get_source_segment(text, d) or ""
+            i = 0
+            while i < len(seg):
+                if seg[i] == "\\":
+                    if i + 1 >= len(seg) or seg[i + 1] not in "\\\"":
+                        return Reject("doc string contains the backslash sequence `%s` (neither `\\\\` nor `\\\"`)" % seg[i:i + 2],
+                                      ("p", seg[i:i + 2], d.lineno))
+                    i += 2
+                else:
+                    i += 1
+
     for st in tree.body:
         if is_doc(st) or isinstance(st, (ast.ImportFrom, ast.FunctionDef)):
             continue
